@@ -26,12 +26,12 @@ def observed(sc):
     """Observables of a run in the model's vocabulary: per rid outcome, connected, nq, taken."""
     outs = {}
     for key, rpc in sc.rpcs:
-        rid = sc.rid_of_rpc.get(id(rpc))
+        rid = sc.rid_of_id.get(rpc.id)
         o = sc.outcomes.get(key)
         if rid is None or o is None:
             continue
         if o[0] == 'reply':
-            rid2 = next((sc.rid_of_rpc[id(r)] for (_, r) in sc.rpcs if r.id == o[1]), None)
+            rid2 = sc.rid_of_id.get(o[1])
             outs[rid] = [1, 100 + rid2 if rid2 is not None else 7]
         elif o[0] == 'exc':
             outs[rid] = [2, EXC_CODE.get(o[1], 3)]
@@ -202,9 +202,9 @@ def oracle_c14(sc):
     if sc.worker_done:
         if sc.connected_end:
             return ('the session thread has stopped but the session still reports connected', 'stopped_connected')
-        for key, rpc in sc.rpcs:
-            if rpc.id in sc.received and rpc.reply is None and rpc.error is None:
-                return ('the session thread has stopped but request %s is still pending (never failed)' % rpc.id, 'stopped_pending')
+        for mid in sc.pending_end:
+            if mid in sc.received:
+                return ('the session thread has stopped but request %s is still in the pending table (never failed)' % mid, 'stopped_pending')
     killers = [a[0] for a in spec['server'] if a[0] in ('garbage', 'badutf8')]
     if killers and not spec.get('eager'):
         if sc.result == 'step-limit':
@@ -236,8 +236,10 @@ def gen_spec(rng, pid):
     clients = []
     for c in range(nclients):
         ops = [('rpc', rng.random() < 0.6) for _ in range(rng.choice([1, 1, 2]))]
+        if pid == 'C03' and rng.random() < 0.25:
+            ops = [('rpc_ff',) if (op[1] is False and rng.random() < 0.6) else op for op in ops]
         clients.append(ops)
-    nreq = sum(len(o) for o in clients)
+    nreq = sum(1 for o in clients for op in o if op[0] in ('rpc', 'rpc_ff'))
     order = list(range(nreq)); rng.shuffle(order)
     server = []
     profile = 'default'
@@ -259,6 +261,9 @@ def gen_spec(rng, pid):
         for k in answered:
             server.append(('reply', k))
         if rng.random() < 0.5: server.insert(rng.randint(0, len(server)), ('wait_all',))
+        if rng.random() < 0.35 and nreq - len(answered) > 0:     # the loss falls inside a message (and inside a character)
+            rest = [k for k in order if k not in answered]
+            server.append(('partial', rng.choice(rest), rng.choice([0, 1, 2, 3])))
         server.append((rng.choice(['eof', 'eof', 'err']),))
         wf = None
         if rng.random() < 0.3:        # the loss is a failed client write instead: k-th write call returns 0 (after a short write)
@@ -291,6 +296,8 @@ def gen_spec(rng, pid):
         if rng.random() < 0.5: clients.append(cons)
         else: clients[0] = clients[0] + cons
     d = dict(profile=profile, clients=clients, server=server, eager=eager)
+    if pid in ('C03', 'C04', 'C11') and rng.random() < 0.2:
+        d['app'] = 'reenter'
     if pid == 'C14':
         d['base11'] = rng.random() < 0.75
     if pid == 'C04' and wf is not None:
@@ -303,12 +310,14 @@ SMALL = {
             dict(profile='default', base11=False, clients=[[('rpc', True)], [('rpc', True)]], server=[('nonxml',), ('reply', 1), ('reply_unknown',)], eager=False)],
     'C03': [dict(profile='default', clients=[[('rpc', True)], [('rpc', True)]], server=[('reply', 1), ('reply', 0)], eager=False),
             dict(profile='junos', clients=[[('rpc', False)], [('rpc', True)]], server=[('notif', 1), ('reply', 0), ('reply', 1)], eager=False),
-            dict(profile='default', clients=[[('rpc', True)], [('rpc', True)]], server=[('reply', 0)], eager=True)],
+            dict(profile='default', clients=[[('rpc', True)], [('rpc', True)]], server=[('reply', 0)], eager=True),
+            dict(profile='default', clients=[[('rpc', True)], [('rpc_ff',), ('rpc', True)]], server=[('notif', 1), ('reply', 1), ('reply', 2), ('reply', 0)], eager=True, app='reenter')],
     'C04': [dict(profile='default', clients=[[('rpc', False), ('rpc', False)], [('rpc', True)]], server=[('wait_all',), ('eof',)], eager=False),
             dict(profile='default', clients=[[('rpc', True)], [('rpc', False)]], server=[('reply', 0), ('err',)], eager=False),
             dict(profile='default', clients=[[('rpc', False), ('rpc', False), ('rpc', False)], [('rpc', False)]], server=[('eof',)], eager=False),
             dict(profile='default', clients=[[('rpc', False), ('rpc', True)]], server=[], eager=False, wfail=[1, 17]),
-            dict(profile='default', clients=[[('rpc', True)], [('rpc', False)]], server=[], eager=False, wfail=[0, 0])],
+            dict(profile='default', clients=[[('rpc', True)], [('rpc', False)]], server=[], eager=False, wfail=[0, 0]),
+            dict(profile='default', clients=[[('rpc', True)], [('rpc', True)]], server=[('partial', 0, 0), ('eof',)], eager=False, app='reenter')],
     'C11': [dict(profile='junos', clients=[[('rpc', True), ('take', False)], [('take', True)]], server=[('notif', 1), ('reply', 0), ('notif', 2)], eager=False),
             dict(profile='default', clients=[[('rpc', True)], [('take', True), ('take', False)]], server=[('reply', 0), ('notif', 1)], eager=False)],
 }
